@@ -1415,6 +1415,18 @@ func numRunOp(s *numStats, dr *h.Driver, op string) {
 		numOneDate(s, arg(1))
 	case "tod":
 		numOneTimeOfDay(s, arg(1))
+	case "ttext":
+		numOneTimeText(s, dr, loadTimeLayouts(), arg(1), arg(2), int(arg(3)))
+	case "tread":
+		if len(f) != 3 {
+			panic("bad op " + op)
+		}
+		numOneTimeRead(s, dr, loadTimeLayouts(), f[1], f[2])
+	case "tlib":
+		if len(f) != 5 {
+			panic("bad op " + op)
+		}
+		numOneTimeLib(s, dr, f[1], arg(2), arg(3), int(arg(4)))
 	case "period":
 		numOnePeriod(s, dr, arg(1))
 	case "pseq":
@@ -1692,6 +1704,10 @@ func TestNumeric(t *testing.T) {
 		"dparse PT90M", "dparse P40000D", "dparse P4000D", "dparse PT1,55S", "dparse PT.5S", "dparse PT5.S", "dparse P1T1H", "dparse PT1HT1M", "dparse P1H", "dparse PT1D", "dparse P1", "dparse 1D", "dparse +P1D", "dparse P3277Y", "dparse P3276.7Y", "dparse P300Y",
 		"instant 0 0", "instant -62135596800 0", "instant 253402300799 0", "instant 1727352000 7200", "instant 951782400 -34200",
 		"instantns 0 500000000", "instantns 1727352000 499999999", "instantns -62135596800 1",
+		"ttext 0 0 0", "ttext -62167219200 0 0", "ttext 253402300799 0 0", "ttext 253402300799 500000000 0", "ttext 951782399 500000000 -34200", "ttext 1727352000 499999999 7200",
+		"tread dt 2024-02-29T12:00:00Z", "tread dt 2023-02-29T12:00:00Z", "tread dt 2024-09-26T7:04:05", "tread dt 2024-09-26T12:00:00.5", "tread dt 2024-09-26T12:00:00,25Z", "tread dt 2024-09-26T12:00:60Z", "tread dt 2024-09-26T24:00:00Z", "tread dt 2024-13-01T00:00:00", "tread dt 2024-09-26T12:00:00+02:00", "tread dt 10000-01-01T00:00:00Z",
+		"tread date 2001-10-26", "tread date 2001-10-26Z", "tread date 2001-10-26+07:00", "tread date 2001-10-26+02:00", "tread date 2001-02-30", "tread tod 13:20:00", "tread tod 13:20:00.125Z", "tread tod 13:20:00+07:00", "tread tod 13:20:00+05:30", "tread tod 13:20:00-11:00", "tread tod 3:20:00", "tread tod 13:20:00+25:00",
+		"tlib 2006-01-02T15:04:05.999999999Z07:00 951782400 123456789 -34200", "tlib 2006-01-02T15:04:05Z 253402300800 0 0", "tlib 20060102 0 0 0",
 		"date 0", "date -62135596800", "date 253402300799", "date 951782400", "tod 0", "tod 86399", "tod 43200",
 		"pseq direct SEa R90", "pseq outer SEa R90", "pseq direct A3600 R90", "pseq outer A3600 R90 E R30", "pseq direct R90 R90", "pseq direct SEr A60 S R5",
 		"reuse sn 29 2", "reuse sn -199998 1", "reuse dur 36001", "reuse dur -5", "reuse art 1727352000",
@@ -2040,6 +2056,10 @@ func TestNumeric(t *testing.T) {
 		r.Info["observation_zone_layouts"] = fmt.Sprintf("DateType 2001-10-26+02:00 -> err %v; TimeType 13:20:00+07:00 -> zone offset %d s (err %v): the text +07:00 in a layout is a literal, not a numeric zone", e1, off, e2)
 	}
 	phase("instants")
+
+	// ---- (4b) instants at the level of the text (Spine.TimeText)
+	numTimeTextPhase(r, d, args, rng)
+	phase("instant-texts")
 
 	// ---- (5) time periods with a relative end time, incl. JSON round trip
 	ps := newNumStats()
